@@ -873,13 +873,12 @@ package framework
 //@   ensures result.ssn == ssn && len(result.operations) == 0 && result.sessionID == ssn.ID
 //@ end
 
-// ---- plugin dispatch called between statement operations (allocate path: C01 C03 C04) ---------------
-// These Session methods run the registered plugin callbacks (func-typed values: predicates, node/GPU
-// scoring, subset functions, capacity checks; OrderedNodesByTask additionally uses goroutines). They are
-// `trusted`: ASSUMED frame of plugin code, of the same nature as `type:ReverseOperation` above - a plugin
-// callback never touches a statement log or an Operation cell, never calls the cache emission points,
-// never runs a reverse closure, and leaves the session skeleton alone. Everything else may change
-// (fit errors recorded on the job, plugin-private state), hence `modifies *`.
+// ---- plugin dispatch called between statement operations (allocate path: C01 C03 C04 C08) ----------
+// These Session methods run the registered plugin callbacks (func-typed values: predicates, node / GPU scoring,
+// subset functions, capacity checks, hooks). They are VERIFIED against their bodies; what is assumed sits one level
+// below, in the `type:` contracts of the callback types in package api (an abstract verdict per callback + the plugin
+// frame below). Only OrderedNodesByTask (goroutines + sync) and the package-level sortGPUs (library sort) stay
+// `trusted`; isTaskAllocatableOnNode has one `trust` clause (node_info.FittingError has no contract).
 
 // ASSUMED frame of one plugin callback (stated in the `type:` contracts of package api): a callback touches no
 // statement (log, session link), calls none of the cache emission points and runs no reverse closure. Both conjuncts
@@ -1322,7 +1321,7 @@ package framework
 //@ func (*Session).OrderedNodesByTask
 //@   props C01 C03 C04
 //@   trusted
-//@   note goroutines + sync (outside the subset); assumed frame of the NodePreOrderFns / NodeOrderFns callbacks, and that the result only contains nodes of the input slice (the body appends input nodes to score buckets and concatenates the buckets)
+//@   note goroutines + sync.WaitGroup / Mutex + sort (outside the subset: a `go` statement havocs the heap in the engine, so no clause could be proved against the body; the whole function stays trusted). The goroutine-free parts ARE verified separately: (*Session).NodePreOrderFn (every pre-order hook runs, node list kept) and (*Session).NodeOrderFn (sum of the registered scores, first error wins), both with the plugin frame. Assumed here: that frame for the concurrent calls, and that the result only contains nodes of the input slice (the body appends input nodes to score buckets and concatenates the buckets)
 //@   requires ssn != nil
 //@   modifies *
 //@   ensures [logsSame] logsSame()
@@ -1389,6 +1388,20 @@ package framework
 //@   ensures [subsetsOfParent] result1 == nil ==> forall a int, i int :: 0 <= a && a < len(result0) && 0 <= i && i < len(result0[a]) ==> result0[a][i] != nil && (exists j int :: 0 <= j && j < len(initNodeSet) && initNodeSet[j] == result0[a][i])
 //@   ensures [noSubsetFnIsIdentity] old(len(ssn.SubsetNodesFns)) == 0 ==> result1 == nil && len(result0) == 1 && result0[0] == initNodeSet
 //@   ensures [errorMeansNoSets] result1 != nil ==> len(result0) == 0
+//@ end
+
+// ---- session.go: the two look-up helpers of BindPod / Evict / commitEvict -------------------------------------------
+// updatePodOnSession (job look-up + PodGroupInfo.UpdateTaskStatus) and updatePodOnNode (node look-up +
+// NodeInfo.UpdateTask) are loop-free; they are executed INSIDE their callers' units ((*Session).BindPod,
+// (*Statement).commitEvict - verified above - and Session.Evict), so their bodies are covered by those proofs with the
+// full C14 contracts of UpdateTaskStatus / UpdateTask. A standalone summary would only replace that by something weaker.
+//@ func (*Session).updatePodOnSession
+//@   props C13 C01
+//@   inline
+//@ end
+//@ func (*Session).updatePodOnNode
+//@   props C13 C06
+//@   inline
 //@ end
 
 // ---- session.go: configuration getters ------------------------------------------------------------------------
